@@ -516,7 +516,13 @@ class ServerStream(Stream):
 
     def real(self, case):
         seen, status_line, headers, body, ok, raw = self._observe(case)
-        return hx(raw)
+        return hx(self._no_clock(raw))
+
+    @staticmethod
+    def _no_clock(raw):
+        """the Date header's value is the only time-dependent part of the answer: fixed placeholder"""
+        head, sep, body = raw.partition(b"\r\n\r\n")
+        return re.sub(rb"\r\nDate: [^\r]*", b"\r\nDate: DATE", head, count=1) + sep + body
 
     def model_line(self, case):
         # everything the writer put on the wire; the values of the Server / Date headers that
@@ -529,7 +535,7 @@ class ServerStream(Stream):
         app_headers = [tuple(h) for h in r["headers"]]
         if r["cl"]:
             app_headers.append(("Content-Length", str(sum(len(p) for p in pieces))))
-        server_headers = [(k, v) for k, v in headers[:2] if k in ("Server", "Date")]
+        server_headers = [(k, "DATE" if k == "Date" else v) for k, v in headers[:2] if k in ("Server", "Date")]
         pl = lambda hl: ",".join(hs(k) + ":" + hs(v) for k, v in hl) or "[]"  # noqa: E731
         return line("resp.wire", hs(case["protocol"]), hs(r["status"]), pl(server_headers), pl(app_headers), b01(case["method"] == "HEAD"),
                     ",".join(r["pieces"][: r["nwrite"]]) or "[]", ",".join(r["pieces"][r["nwrite"] :]) or "[]")
